@@ -74,7 +74,9 @@ def _get_stix_version(data):
             stix_version = "2.0"
         elif isinstance(data, stix2.v21._STIXBase21):
             stix_version = "2.1"
-        elif isinstance(data, dict):
+        else:
+            # a dict, or any other mapping holding STIX content (it is
+            # versioned with the same rules as a dict)
             stix_version = detect_spec_version(data)
 
     return stix_version
